@@ -12,7 +12,7 @@ import capstone
 
 from symx.core import Rope
 
-FALLS_THROUGH = ("o", "call", "icall", "jcc", "lea")
+FALLS_THROUGH = ("o", "call", "icall", "jcc", "lea", "sys")
 
 
 class Item:
@@ -232,6 +232,8 @@ class Listing:
                 edges.append((it.blk, "branch", None, False, False))
             elif it.kind == "icall":
                 edges.append((it.blk, "call", None, False, False))
+            elif it.kind == "sys":
+                edges.append((it.blk, "syscall", None, False, True))
         for it, nxt_blk in last_atoms:
             if it.kind == "ret":
                 f = self.block_func.get(it.blk)
